@@ -2,5 +2,6 @@ SPECIFICATION Spec
 CONSTANTS
   MaxAddrs = 2
   NumDev = 2
+  Varieties = {0, 1, 2, 3, 4, 5, 6, 7, 8, 9}
 POSTCONDITION ExportCases
 CHECK_DEADLOCK FALSE
